@@ -138,23 +138,24 @@ UNIT = VUnit(
         Raw(SPEC),
         Block("binary_operand_rule", within="check_expr", impl="impl Resolver",
               anchor=r"Expr::Binary \{ op, lhs, rhs, span \} =>",
-              sig="fn binary_operand_rule(op: BinaryOp, l: Option<ValueType>, r: Option<ValueType>) -> (err: bool)",
+              sig="fn binary_operand_rule(op: BinaryOp, l0: Option<ValueType>, r0: Option<ValueType>) -> (err: bool)", arm=True,
               prologue="    let mut err = false;",
               epilogue="    err",
               # a binary expression over typed operands is rejected exactly when its operand types are statically wrong
-              ensures=["(l is Some && r is Some) ==> err == !static_ok(op, l->Some_0, r->Some_0)"],
+              ensures=["(l0 is Some && r0 is Some) ==> err == !static_ok(op, l0->Some_0, r0->Some_0)"],
               rewrites=[
-                  Rw("R11b", r"self\.check_expr\(lhs\);\s*self\.check_expr\(rhs\);\s*let l = self\.infer_expr_type\(lhs\);\s*let r = self\.infer_expr_type\(rhs\);", ""),
+                  Rw("R11b", r"self\.check_expr\((?:lhs|rhs)\);", "", min_matches=2),
+                  Rw("R11b", r"self\.infer_expr_type\(lhs\)", "l0", min_matches=1), Rw("R11b", r"self\.infer_expr_type\(rhs\)", "r0", min_matches=1),
                   Rw("R6", r"self\.emit_error\(\s*\*span,.*?\}\],\s*\);?", "{ err = true; }", min_matches=4),
               ],
               real_name="Resolver::check_expr (Expr::Binary arm: operand typing rule)"),
         Block("unary_operand_rule", within="check_expr", impl="impl Resolver",
               anchor=r"Expr::Unary \{ op, expr, span \} =>",
-              sig="fn unary_operand_rule(op: UnaryOp, t: Option<ValueType>) -> (err: bool)",
+              sig="fn unary_operand_rule(op: UnaryOp, t0: Option<ValueType>) -> (err: bool)", arm=True,
               prologue="    let mut err = false;", epilogue="    err",
-              ensures=["t is Some ==> err == !static_ok_unary(op, t->Some_0)"],
+              ensures=["t0 is Some ==> err == !static_ok_unary(op, t0->Some_0)"],
               rewrites=[
-                  Rw("R11b", r"self\.check_expr\(expr\);\s*let t = self\.infer_expr_type\(expr\);", ""),
+                  Rw("R11b", r"self\.check_expr\(expr\);", ""), Rw("R11b", r"self\.infer_expr_type\(expr\)", "t0"),
                   Rw("R6", r"self\.emit_error\(\s*\*span,.*?\}\],\s*\);?", "{ err = true; }", min_matches=2),
               ],
               real_name="Resolver::check_expr (Expr::Unary arm: operand typing rule)"),
@@ -162,17 +163,17 @@ UNIT = VUnit(
         # poisons its parent), covering every type the evaluator can produce for it, and exact when no operand is dynamic
         Block("infer_binary", within="infer_expr_type", impl="impl Resolver",
               anchor=r"Expr::Binary \{ op, lhs, rhs, \.\. \} =>",
-              sig="fn infer_binary(op: BinaryOp, l: ValueType, r: ValueType) -> (res: Option<ValueType>)",
-              ensures=["static_ok(op, l, r) ==> res is Some",
-                       "static_ok(op, l, r) ==> forall|a: ValueType, b: ValueType| fits(l, a) && fits(r, b) && #[trigger] rt_ok(op, a, b) ==> covers(res->Some_0, result_ty(op, a, b))",
-                       "static_ok(op, l, r) && !dynamic(l) && !dynamic(r) ==> res == Some(result_ty(op, l, r))"],
-              rewrites=[Rw("R11b", r"let l = self\.infer_expr_type\(lhs\)\?;\s*let r = self\.infer_expr_type\(rhs\)\?;", "")],
+              sig="fn infer_binary(op: BinaryOp, l0: ValueType, r0: ValueType) -> (res: Option<ValueType>)", arm=True,
+              ensures=["static_ok(op, l0, r0) ==> res is Some",
+                       "static_ok(op, l0, r0) ==> forall|a: ValueType, b: ValueType| fits(l0, a) && fits(r0, b) && #[trigger] rt_ok(op, a, b) ==> covers(res->Some_0, result_ty(op, a, b))",
+                       "static_ok(op, l0, r0) && !dynamic(l0) && !dynamic(r0) ==> res == Some(result_ty(op, l0, r0))"],
+              rewrites=[Rw("R11b", r"self\.infer_expr_type\(lhs\)\?", "l0"), Rw("R11b", r"self\.infer_expr_type\(rhs\)\?", "r0")],
               real_name="Resolver::infer_expr_type (Expr::Binary arm)"),
         Block("infer_unary", within="infer_expr_type", impl="impl Resolver",
               anchor=r"Expr::Unary \{ op, expr, \.\. \} =>",
-              sig="fn infer_unary(op: UnaryOp, t: ValueType) -> (res: Option<ValueType>)",
-              ensures=["static_ok_unary(op, t) ==> res == Some(result_ty_unary(op))"],
-              rewrites=[Rw("R11b", r"let t = self\.infer_expr_type\(expr\)\?;", "")],
+              sig="fn infer_unary(op: UnaryOp, t0: ValueType) -> (res: Option<ValueType>)", arm=True,
+              ensures=["static_ok_unary(op, t0) ==> res == Some(result_ty_unary(op))"],
+              rewrites=[Rw("R11b", r"self\.infer_expr_type\(expr\)\?", "t0")],
               real_name="Resolver::infer_expr_type (Expr::Unary arm)"),
         Fn("expect_member_string_arg", impl="impl Resolver",
            sig="fn expect_member_string_arg(arg: Option<ValueType>) -> (err: bool)",
